@@ -106,6 +106,12 @@ def run(rng, tier, model_ok):
         queries.append(("0 - 1 %s/s" % u, True))
         queries.append(("1 / 1 %s" % u, False))
         queries.append(("2 m*%s" % u, False))
+    # diagnostics are placed on the text as typed: blanks before and after the query, several expressions of which some fail
+    for e in ["1/0", "(1 m + 1 s) (2 m)", "(2 m) (1 m to s) (7)", "nosuchfact * 2", "1 m + 1 s", "round(1, 2, 3)", "(1/0) (2/0)", "2 ^ 0.5"]:
+        for lead in ["", " ", "   ", "     "]:
+            for trail in ["", "  "]:
+                queries.append((lead + e + trail, False))
+        queries.append(("  " + e, True))
     # unit powers around the places where the superscript digits change length, above and below the bar
     for pw in [2, 3, 9, 10, 11, 12, 19, 20, 21, 99, 100, 101, 109, 110, 111, 999, 1000, 1001, 1010]:
         queries.append(("1 m^%d" % pw, False))
